@@ -138,7 +138,12 @@ Fixpoint lookup_raw (rd : rawdeps) (name version : str) : list dep :=
 Definition nvo := (str * str * bool)%type.       (* name, version, optional *)
 
 (* Eups.getDependentProducts(setup=True, shouldRaise=True) over the pre-order list; [skip] is the depth of
-   the optional product that is not set up and whose dependencies are being passed over (sfix only) *)
+   the optional product that is not set up and whose dependencies are being passed over (sfix only).
+   Whether a product is set up, and at which version, is read from the environment e alone
+   (Eups.findSetupProduct: the SETUP_ variable, then the declared product of that version) - not from what
+   the Eups instance remembers having set up (Eups.alreadySetupProducts), which keeps the products of an
+   optional dependency whose setup failed part-way and was rolled back.  The same holds for the version of
+   the product a line names (setup_version = findSetupVersion) and for rewrite. *)
 Fixpoint setup_closure (sfix : bool) (w : world) (e : amap str) (skip : option nat) (ds : list dep)
   : res (list nvo) :=
   match ds with
